@@ -518,7 +518,11 @@ def C17(tier):
     ks = [-1, 1] if q else [-3, -2, -1, 1, 2, 3, 4, 5, 6]
     obs = [layout_ob("layout-scale", "Harness_E_C17", sh, {"P4": [4, 1, 5], "P5": [1, 2, 3], "K": ks},
                      consts={"P1": 0, "P2": 0, "SZ": 2},
-                     bounds="all canonical edge lists N<=3 M<=3 x {SinkColoring,VAlign,PackRight} x {straight,polyline,ortho} x factors 2^k, k in %s; %s" % (ks, SYMB))]
+                     bounds="all canonical edge lists N<=3 M<=3 x {SinkColoring,VAlign,PackRight} x {straight,polyline,ortho} x factors 2^k, k in %s; %s" % (ks, SYMB)),
+           layout_ob("layout-scale-bk", "Harness_E_C17", sh, {"BK": [-1, 0, 3] if q else [-1, 0, 1, 2, 3], "P5": [1, 3], "K": [1] if q else [-2, 1, 3]},
+                     consts={"P1": 0, "P2": 0, "P4": 2, "SZ": 2}, enctimeout=150, qtimeout=90,
+                     bounds="all canonical edge lists N<=3 M<=3 x Brandes-Koepf (balanced and forced layouts) x {straight,ortho}; %s; the +-Inf sentinels of B&K are a symbolic "
+                            "constant >= 2^100 (comparisons exact for the finite values below it)" % SYMB)]
     return dict(obligations=obs)
 
 
